@@ -40,6 +40,9 @@ pub enum Which {
     C13,
     C14,
     C17,
+    /// grouping forwarders (TextDiff::grouped_ops, Capture::into_grouped_ops) and the
+    /// statement of C12 on the concrete op lists the diffs produce
+    C12s,
 }
 
 #[derive(Clone, Debug)]
@@ -295,6 +298,25 @@ impl Text {
                     claim!(d3.ops() == &ops[..] && !d3.newline_terminated(), "from_slices over the tokens differs");
                 }
             }
+            Which::C12s => {
+                for n in 0..=3usize {
+                    let direct = similar::group_diff_ops(ops.clone(), n);
+                    claim!(diff.grouped_ops(n) == direct, "TextDiff::grouped_ops({}) differs from group_diff_ops(ops, {})", n, n);
+                    let mut cap = similar::algorithms::Capture::new();
+                    for op in &ops {
+                        op.apply_to_hook(&mut cap).unwrap();
+                    }
+                    claim!(cap.into_grouped_ops(n) == direct, "Capture::into_grouped_ops({}) differs from group_diff_ops", n);
+                    // the statement, evaluated on this concrete op list (zero-length Equal ops are
+                    // not part of the claim and dropped on both sides)
+                    let expect = expected_groups(&ops, n);
+                    let got: Vec<Vec<DiffOp>> = direct.iter().map(|g| g.iter().copied().filter(|o| !matches!(o, DiffOp::Equal { len: 0, .. })).collect()).collect();
+                    claim!(got == expect, "group_diff_ops({:?}, {}) = {:?}, the statement requires {:?}", ops, n, direct, expect);
+                    if direct.len() >= 2 {
+                        engine::witness("paths_with_two_or_more_groups");
+                    }
+                }
+            }
             Which::C17 => {
                 let remap = TextDiffRemapper::from_text_diff(&diff, ot, nt);
                 let remap2 = TextDiffRemapper::new(&olds, &news, ot, nt);
@@ -344,6 +366,46 @@ impl Text {
     }
 }
 
+/// The statement of C12 on a concrete alternating op list.
+fn expected_groups(ops: &[DiffOp], n: usize) -> Vec<Vec<DiffOp>> {
+    let k = ops.len();
+    if !ops.iter().any(|o| o.tag() != DiffTag::Equal) {
+        return vec![];
+    }
+    let mut groups = vec![];
+    let mut cur: Vec<DiffOp> = vec![];
+    for (i, op) in ops.iter().enumerate() {
+        match *op {
+            DiffOp::Equal { old_index, new_index, len } => {
+                if i == 0 {
+                    let c = len.min(n);
+                    if c > 0 {
+                        cur.push(DiffOp::Equal { old_index: old_index + len - c, new_index: new_index + len - c, len: c });
+                    }
+                } else if i == k - 1 {
+                    let c = len.min(n);
+                    if c > 0 {
+                        cur.push(DiffOp::Equal { old_index, new_index, len: c });
+                    }
+                } else if len > 2 * n {
+                    if n > 0 {
+                        cur.push(DiffOp::Equal { old_index, new_index, len: n });
+                    }
+                    groups.push(std::mem::take(&mut cur));
+                    if n > 0 {
+                        cur.push(DiffOp::Equal { old_index: old_index + len - n, new_index: new_index + len - n, len: n });
+                    }
+                } else {
+                    cur.push(*op);
+                }
+            }
+            o => cur.push(o),
+        }
+    }
+    groups.push(cur);
+    groups
+}
+
 impl Prop for Text {
     type Shape = Shape;
     fn id(&self) -> &'static str {
@@ -352,6 +414,7 @@ impl Prop for Text {
             Which::C13 => "C13",
             Which::C14 => "C14",
             Which::C17 => "C17",
+            Which::C12s => "C12s",
         }
     }
     fn shapes(&self, tier: Tier) -> Vec<Shape> {
@@ -427,6 +490,9 @@ impl Prop for Text {
                 "similar::TextDiff::{from_lines, from_words, from_chars, from_unicode_words, from_graphemes, from_slices, algorithm, newline_terminated, ops}",
                 "similar::capture_diff_slices",
             ],
+            Which::C12s => vec![
+                "similar::TextDiff::grouped_ops, similar::algorithms::Capture::into_grouped_ops, similar::group_diff_ops (on the concrete op lists of symbolic line/word/char diffs, radius 0..=3)",
+            ],
             Which::C17 => vec![
                 "similar::utils::TextDiffRemapper::{new, from_text_diff, slice_old, slice_new, iter_slices}, SliceRemapper::{new, slice}",
                 "similar::utils::{diff_chars, diff_words, diff_unicode_words, diff_graphemes, diff_lines, diff_slices}",
@@ -443,6 +509,242 @@ impl Prop for Text {
             ],
             required_witnesses: vec!["paths_with_changes", "paths_with_equal_ops", "paths_with_two_or_more_tokens_per_side"],
             rule: "one state = one explored path (equality pattern of the ordinary characters) of one shape".into(),
+        }
+    }
+}
+
+// ---------------------------------------------------------------- C14 above the size threshold
+
+/// One extra token spliced into the skeleton.
+#[derive(Clone, Copy, Debug, PartialEq, Eq)]
+pub struct Extra {
+    /// 0 = front, 1 = middle, 2 = end
+    pub pos: u8,
+    /// 0 = fresh symbolic token (different from every skeleton token, may equal other
+    /// fresh tokens); 1/2/3 = a copy of the first / middle / last skeleton token
+    pub kind: u8,
+}
+
+#[derive(Clone, Debug)]
+pub struct BigShape {
+    pub alg: Algorithm,
+    pub tok: Tok,
+    pub skel: usize,
+    pub old_extra: Vec<Extra>,
+    pub new_extra: Vec<Extra>,
+}
+pub struct TextBig;
+
+fn all_extras() -> Vec<Extra> {
+    let mut v = vec![];
+    for pos in 0..3 {
+        for kind in 0..4 {
+            v.push(Extra { pos, kind });
+        }
+    }
+    v
+}
+
+impl TextBig {
+    /// builds one side: returns the characters of the text
+    fn side(skel: &[Vec<Sym>], extras: &[Extra], tok: Tok) -> Vec<Sym> {
+        let mk = |e: &Extra| -> Vec<Sym> {
+            match e.kind {
+                0 => {
+                    let c = symtxt::fresh_char(symtxt::Class::Ord);
+                    if tok == Tok::Lines {
+                        vec![c, symtxt::fresh_char(symtxt::Class::Lf)]
+                    } else {
+                        vec![c]
+                    }
+                }
+                1 => skel[0].clone(),
+                2 => skel[skel.len() / 2].clone(),
+                _ => skel[skel.len() - 1].clone(),
+            }
+        };
+        let mut front = vec![];
+        let mut mid = vec![];
+        let mut end = vec![];
+        for e in extras {
+            match e.pos {
+                0 => front.extend(mk(e)),
+                1 => mid.extend(mk(e)),
+                _ => end.extend(mk(e)),
+            }
+        }
+        let h = skel.len() / 2;
+        let mut out = front;
+        for t in &skel[..h] {
+            out.extend(t.iter().copied());
+        }
+        out.extend(mid);
+        for t in &skel[h..] {
+            out.extend(t.iter().copied());
+        }
+        out.extend(end);
+        out
+    }
+}
+
+impl Prop for TextBig {
+    type Shape = BigShape;
+    fn id(&self) -> &'static str {
+        "C14b"
+    }
+    fn shapes(&self, tier: Tier) -> Vec<BigShape> {
+        let mut v = vec![];
+        let ex = all_extras();
+        let mut combos: Vec<(Vec<Extra>, Vec<Extra>)> = vec![(vec![], vec![])];
+        for e in &ex {
+            combos.push((vec![*e], vec![]));
+            combos.push((vec![], vec![*e]));
+        }
+        // two extras: one per side, or two on one side
+        let pairs: Vec<(Extra, Extra)> = match tier {
+            Tier::Quick => ex.iter().flat_map(|a| ex.iter().map(move |b| (*a, *b))).filter(|(a, b)| (a.pos as usize * 4 + a.kind as usize + b.pos as usize * 4 + b.kind as usize) % 3 == 0).collect(),
+            Tier::Thorough => ex.iter().flat_map(|a| ex.iter().map(move |b| (*a, *b))).collect(),
+        };
+        for (a, b) in &pairs {
+            combos.push((vec![*a], vec![*b]));
+            combos.push((vec![*a, *b], vec![]));
+            combos.push((vec![], vec![*a, *b]));
+        }
+        for alg in ALGS {
+            for tok in [Tok::Chars, Tok::Lines] {
+                for skel in [99usize, 100, 101, 103] {
+                    for (a, b) in &combos {
+                        if alg == Algorithm::Lcs && a.len() + b.len() > 1 {
+                            continue; // the LCS table over ~100x100 symbolic items is slow; one extra only
+                        }
+                        if tok == Tok::Lines && (a.len() + b.len() > 1 || skel == 103) {
+                            continue;
+                        }
+                        if tier == Tier::Quick && skel == 103 && a.len() + b.len() > 1 {
+                            continue;
+                        }
+                        v.push(BigShape { alg, tok, skel, old_extra: a.clone(), new_extra: b.clone() });
+                    }
+                }
+            }
+        }
+        v
+    }
+    fn run(&self, s: &BigShape) -> String {
+        reset_hooks();
+        symtxt::reset();
+        // skeleton tokens: pairwise different (one z3 distinct over their first characters),
+        // each with its own hash class; fresh extras share one class and are assumed to
+        // differ from every skeleton token, so the class-based Hash is lawful.
+        let skel: Vec<Vec<Sym>> = (0..s.skel)
+            .map(|_| {
+                let c = symtxt::fresh_char(symtxt::Class::Ord);
+                if s.tok == Tok::Lines {
+                    vec![c, symtxt::fresh_char(symtxt::Class::Lf)]
+                } else {
+                    vec![c]
+                }
+            })
+            .collect();
+        engine::assume(&F::Distinct(skel.iter().map(|t| t[0].0).collect()));
+        for (i, t) in skel.iter().enumerate() {
+            engine::set_hash_class(t[0].0, i as u64);
+            if t.len() > 1 {
+                engine::set_hash_class(t[1].0, 1 << 40);
+            }
+        }
+        let n_skel_ids = skel.iter().map(|t| t.len()).sum::<usize>() as u32;
+        let old = TextBig::side(&skel, &s.old_extra, s.tok);
+        let new = TextBig::side(&skel, &s.new_extra, s.tok);
+        let mut fs = vec![];
+        for c in old.iter().chain(new.iter()) {
+            if c.0 >= n_skel_ids && symtxt::class_of(*c) == symtxt::Class::Ord {
+                engine::set_hash_class(c.0, u64::MAX);
+                for t in &skel {
+                    fs.push(F::ne(c.0, t[0].0));
+                }
+            } else if c.0 >= n_skel_ids {
+                engine::set_hash_class(c.0, 1 << 40);
+            }
+        }
+        if !fs.is_empty() {
+            engine::assume(&F::And(fs));
+        }
+        let (ot, nt) = (SymTxt::new(&old), SymTxt::new(&new));
+        let shape = Shape { old: String::new(), new: String::new(), tok: s.tok, alg: s.alg, nl_override: None };
+        let diff = make_diff(&shape, ot, nt);
+        let olds = diff.old_slices().to_vec();
+        let news = diff.new_slices().to_vec();
+        let ops = diff.ops().to_vec();
+        if olds.len() > 100 || news.len() > 100 {
+            engine::witness("paths_above_the_threshold");
+        } else {
+            engine::witness("paths_at_or_below_the_threshold");
+        }
+        let direct = capture_diff_slices(s.alg, &olds, &news);
+        claim!(
+            ops == direct,
+            "with {} / {} tokens the text diff ops differ from capture_diff_slices over the same tokens: {:?} vs {:?}",
+            olds.len(), news.len(), ops, direct
+        );
+        claim!(diff.algorithm() == s.alg, "algorithm() reports {:?}", diff.algorithm());
+        // the ops are a valid script for the token sequences (tokens compared as whole SymTxt)
+        let (mut oc, mut nc) = (0usize, 0usize);
+        for op in &ops {
+            let (tag, o, n) = op.as_tag_tuple();
+            // only the consumed side(s) are positions here; carried indices are C11's business
+            let placed = match tag {
+                DiffTag::Delete => o.start == oc,
+                DiffTag::Insert => n.start == nc,
+                _ => o.start == oc && n.start == nc,
+            };
+            claim!(placed && o.end <= olds.len() && n.end <= news.len(), "op {:?} out of place in {:?}", op, ops);
+            if tag == DiffTag::Equal {
+                for (i, j) in o.clone().zip(n.clone()) {
+                    engine::must_hold(&txt_eq(olds[i], news[j]), &format!("Equal op {:?} pairs different tokens {} / {}", op, i, j));
+                }
+            }
+            oc += o.len();
+            nc += n.len();
+        }
+        claim!(oc == olds.len() && nc == news.len(), "ops do not cover the token sequences");
+        if ops.iter().any(|o| o.tag() != DiffTag::Equal) {
+            engine::witness("paths_with_changes");
+        }
+        engine::offer_sample(|| json!({"shape": self.shape_json(s), "path_condition": engine::path_condition(), "old_tokens": olds.len(), "new_tokens": news.len(), "ops": ops_json(&ops)}));
+        format!("{:?}", ops)
+    }
+    fn cost(&self, s: &BigShape) -> u64 {
+        (s.old_extra.len() + s.new_extra.len()) as u64 + if s.alg == Algorithm::Lcs { 10 } else { 0 }
+    }
+    fn recheck_every(&self, tier: Tier) -> u64 {
+        match tier {
+            Tier::Quick => 4,
+            Tier::Thorough => 16,
+        }
+    }
+    fn shape_json(&self, s: &BigShape) -> Value {
+        let e = |x: &Vec<Extra>| x.iter().map(|e| json!([e.pos, e.kind])).collect::<Vec<_>>();
+        json!({"alg": alg_name(s.alg), "tok": s.tok.name(), "skeleton_tokens": s.skel, "old_extra": e(&s.old_extra), "new_extra": e(&s.new_extra)})
+    }
+    fn shape_from(&self, v: &Value) -> BigShape {
+        let e = |k: &str| -> Vec<Extra> { v[k].as_array().unwrap().iter().map(|x| Extra { pos: x[0].as_u64().unwrap() as u8, kind: x[1].as_u64().unwrap() as u8 }).collect() };
+        BigShape { alg: alg_from(v["alg"].as_str().unwrap()), tok: Tok::from(v["tok"].as_str().unwrap()), skel: v["skeleton_tokens"].as_u64().unwrap() as usize, old_extra: e("old_extra"), new_extra: e("new_extra") }
+    }
+    fn describe(&self, s: &BigShape, ints: &[i64], _b: &[bool]) -> Value {
+        json!({"shape": self.shape_json(s), "note": "skeleton tokens are pairwise different; extras: [position 0/1/2 = front/middle/end, kind 0 = fresh token, 1/2/3 = copy of first/middle/last skeleton token]", "values_of_free_characters": ints.iter().skip(s.skel * if s.tok == Tok::Lines { 2 } else { 1 }).collect::<Vec<_>>()})
+    }
+    fn meta(&self, tier: Tier) -> Meta {
+        Meta {
+            functions: vec![
+                "similar::TextDiffConfig::diff (the `old.len() > 100 || new.len() > 100` branch): IdentifyDistinct::<u32>::new over &SymTxt tokens + capture_diff_deadline over the integer lookups",
+                "similar::capture_diff_slices over the same tokens (the reference)",
+            ],
+            bounds: format!("token counts on both sides of the threshold: a shared skeleton of 99 / 100 / 101 / 103 pairwise-different tokens plus up to 2 extra tokens at the front / middle / end of either side ({}), each extra either a fresh symbolic token or a copy of the first / middle / last skeleton token; char tokens and line tokens; 3 algorithms (LCS and line tokens: at most one extra)", match tier { Tier::Quick => "a third of the two-extra combinations", Tier::Thorough => "all two-extra combinations" }),
+            outside: "fresh extra tokens are assumed different from every skeleton token (coinciding is covered only by the explicit 'copy' kinds); unstructured inputs above the threshold (path explosion); other tokenizers above the threshold (the code path does not depend on the tokenizer)".into(),
+            assumptions: vec!["class-based Hash for this family (skeleton token i -> i, fresh tokens -> one class), lawful under the stated assumption".into()],
+            required_witnesses: vec!["paths_above_the_threshold", "paths_at_or_below_the_threshold", "paths_with_changes"],
+            rule: "one state = one explored path for one skeleton shape".into(),
         }
     }
 }
